@@ -333,7 +333,7 @@ let do_udp dgrams self peer =
           reply 3 0 0; pipe := Some { up_peer = ty; up_rcvmax = n_of_int 65000; up_closed = true }
         end
     | URefresh rf -> refresh := min !refresh (int_of_n rf); reply 2 65000 !refresh
-    | UCack _ -> ()
+    | UCack (_, _, rf) -> refresh := min 5 (int_of_n rf)   (* udp_recv_cack: p->refresh = min(ep->refresh, us_refresh s) *)
     | UClosePipe -> (match !pipe with Some pi -> pipe := Some { pi with up_closed = true } | None -> ()))
     (String.split_on_char ',' dgrams);
   Printf.printf "end n=%d\n" !n
